@@ -40,14 +40,35 @@ var entries = []entry{
 	{"pppoe.Server.handleLCPTermRequest", "pkg/pppoe", "Server", "handleLCPTermRequest", ""},
 	{"pppoe.Server.handlePAP/rejected", "pkg/pppoe", "Server", "handlePAP", "else:authenticated"},
 	{"pppoe.Server.cleanupLoop", "pkg/pppoe", "Server", "cleanupLoop", ""},
+	{"pppoe.Server.Stop", "pkg/pppoe", "Server", "Stop", ""},
 	{"pppoe.SessionTeardown.cleanup", "pkg/pppoe", "SessionTeardown", "cleanup", ""},
 	{"pppoe.SessionTeardown.TerminateSession", "pkg/pppoe", "SessionTeardown", "TerminateSession", ""},
 	{"pppoe.SessionTeardown.HandleClientPADT", "pkg/pppoe", "SessionTeardown", "HandleClientPADT", ""},
 	{"pppoe.SessionTeardown.TerminateAll", "pkg/pppoe", "SessionTeardown", "TerminateAll", ""},
+	{"pppoe.SessionTeardown.TerminateByID", "pkg/pppoe", "SessionTeardown", "TerminateByID", ""},
+	{"pppoe.SessionTeardown.TerminateByMAC", "pkg/pppoe", "SessionTeardown", "TerminateByMAC", ""},
+	{"pppoe.SessionTeardown.TerminateByUsername", "pkg/pppoe", "SessionTeardown", "TerminateByUsername", ""},
 	{"dhcp.Server.handleRelease", "pkg/dhcp", "Server", "handleRelease", ""},
 	{"dhcp.Server.handleDecline", "pkg/dhcp", "Server", "handleDecline", ""},
 	{"dhcp.Server.cleanupExpiredLeases", "pkg/dhcp", "Server", "cleanupExpiredLeases", ""},
 	{"subscriber.Manager.TerminateSession", "pkg/subscriber", "Manager", "TerminateSession", ""},
+	{"subscriber.Manager.cleanupExpiredSessions", "pkg/subscriber", "Manager", "cleanupExpiredSessions", ""},
+	{"subscriber.Manager.Stop", "pkg/subscriber", "Manager", "Stop", ""},
+}
+
+// the session tables: a function that deletes from one of them ends sessions
+var sessionTables = map[string][]string{
+	"pkg/pppoe":      {"m.sessions"},
+	"pkg/dhcp":       {"s.leases"},
+	"pkg/subscriber": {"m.sessions"},
+}
+
+func qual(dir string, fd *ast.FuncDecl) string {
+	pkg := filepath.Base(dir)
+	if r := recvName(fd); r != "" {
+		return pkg + "." + r + "." + fd.Name.Name
+	}
+	return pkg + "." + fd.Name.Name
 }
 
 var dropPrefix = []string{"zap.", "fmt.", "time.", "hex.", "atomic.", "context.", "errors.", "strings.", "net.", "binary.",
@@ -179,6 +200,7 @@ func callee(p *pkgInfo, cur *ast.FuncDecl, ce *ast.CallExpr) *ast.FuncDecl {
 }
 
 func collect(p *pkgInfo, cur *ast.FuncDecl, n ast.Node, depth int, seen map[*ast.FuncDecl]bool, out map[string]bool) {
+	// (seen doubles as the set of functions reached)
 	ast.Inspect(n, func(x ast.Node) bool {
 		ce, ok := x.(*ast.CallExpr)
 		if !ok {
@@ -219,6 +241,7 @@ func main() {
 	out := flag.String("out", "", "Lean file to write")
 	flag.Parse()
 	pkgs := map[string]*pkgInfo{}
+	var reach []string
 	var b strings.Builder
 	b.WriteString("/- GENERATED by harness/cmd/extractpaths from the repository's working tree - do not edit.\n")
 	b.WriteString("   (termination entry point, effects syntactically reachable from it inside its package) -/\n")
@@ -250,7 +273,14 @@ func main() {
 			os.Exit(1)
 		}
 		eff := map[string]bool{}
-		collect(p, fd, blk, 4, map[*ast.FuncDecl]bool{fd: true}, eff)
+		seen := map[*ast.FuncDecl]bool{fd: true}
+		collect(p, fd, blk, 4, seen, eff)
+		var rs []string
+		for f := range seen {
+			rs = append(rs, fmt.Sprintf("%q", qual(e.dir, f)))
+		}
+		sort.Strings(rs)
+		reach = append(reach, fmt.Sprintf("  (%q, [%s])", e.name, strings.Join(rs, ", ")))
 		var names []string
 		for k := range eff {
 			names = append(names, k)
@@ -266,7 +296,77 @@ func main() {
 		}
 		fmt.Fprintf(&b, "  (%q, [%s])%s\n", e.name, strings.Join(q, ", "), sep)
 	}
-	b.WriteString("]\n\nend Bng.Gen.Paths\n")
+	b.WriteString("]\n\n/-- functions reached from each entry point (the entry point's own function included) -/\n")
+	b.WriteString("def reach : List (String × List String) := [\n" + strings.Join(reach, ",\n") + "\n]\n\n")
+	// every function of the three packages that deletes from a session table
+	var dels []string
+	for _, dir := range []string{"pkg/pppoe", "pkg/dhcp", "pkg/subscriber"} {
+		p := pkgs[dir]
+		if p == nil {
+			var err error
+			if p, err = loadPkg(filepath.Join(*repo, dir)); err != nil {
+				fmt.Fprintln(os.Stderr, "extractpaths:", err)
+				os.Exit(1)
+			}
+		}
+		var names []string
+		for _, fds := range p.funcs {
+			for _, fd := range fds {
+				hit := false
+				ast.Inspect(fd.Body, func(x ast.Node) bool {
+					if ce, ok := x.(*ast.CallExpr); ok && types.ExprString(ce.Fun) == "delete" && len(ce.Args) >= 1 {
+						for _, t := range sessionTables[dir] {
+							if types.ExprString(ce.Args[0]) == t {
+								hit = true
+							}
+						}
+					}
+					return true
+				})
+				if hit {
+					names = append(names, fmt.Sprintf("%q", qual(dir, fd)))
+				}
+			}
+		}
+		sort.Strings(names)
+		dels = append(dels, names...)
+	}
+	b.WriteString("/-- every function that deletes from a session table (pppoe SessionManager.sessions, dhcp Server.leases,\n    subscriber Manager.sessions) -/\n")
+	b.WriteString("def deleters : List String := [" + strings.Join(dels, ", ") + "]\n\n")
+	// every function that calls one of them directly: a termination path, whoever wrote it
+	isDel := map[string]bool{}
+	for _, d := range dels {
+		isDel[strings.Trim(d, "\"")] = true
+	}
+	var callers []string
+	for _, dir := range []string{"pkg/pppoe", "pkg/dhcp", "pkg/subscriber"} {
+		p := pkgs[dir]
+		if p == nil {
+			p, _ = loadPkg(filepath.Join(*repo, dir))
+		}
+		var names []string
+		for _, fds := range p.funcs {
+			for _, fd := range fds {
+				hit := false
+				ast.Inspect(fd.Body, func(x ast.Node) bool {
+					if ce, ok := x.(*ast.CallExpr); ok {
+						if c := callee(p, fd, ce); c != nil && isDel[qual(dir, c)] {
+							hit = true
+						}
+					}
+					return true
+				})
+				if hit {
+					names = append(names, fmt.Sprintf("%q", qual(dir, fd)))
+				}
+			}
+		}
+		sort.Strings(names)
+		callers = append(callers, names...)
+	}
+	b.WriteString("/-- every function that directly calls one of the deleters -/\n")
+	b.WriteString("def deleterCallers : List String := [" + strings.Join(callers, ", ") + "]\n")
+	b.WriteString("\nend Bng.Gen.Paths\n")
 	if *out == "" {
 		fmt.Print(b.String())
 		return
